@@ -48,7 +48,7 @@ func (c *cacheAST) augmentGoroutine(g *Goroutine) error {
 				err = err1
 				continue
 			}
-			if f != nil {
+			if f != nil && declMatches(call.Func.Name, f.Name.Name) {
 				augmentCall(&g.Stack.Calls[i], f)
 			}
 		}
@@ -154,6 +154,22 @@ func (p *parsedFile) getFuncAST(f string, l int) (d *ast.FuncDecl, err error) {
 		return true
 	})
 	return
+}
+
+// declMatches returns true if the function declaration named decl can be the
+// one the frame fn ("Foo", "(*T).Foo", "Foo.func1", "Foo[...]") is in.
+//
+// It is false when the sources on disk do not match the binary.
+func declMatches(fn, decl string) bool {
+	for _, c := range strings.Split(fn, ".") {
+		if i := strings.IndexByte(c, '['); i != -1 {
+			c = c[:i]
+		}
+		if c == decl {
+			return true
+		}
+	}
+	return false
 }
 
 func name(n ast.Node) string {
